@@ -255,6 +255,22 @@ CHECKS["C20"] = dict(
     technique="TLA+ clause-mapping specification with symbolic parser models checked by TLC; TLC-generated text structures parsed by the "
               "real code; recorded agreement validated by TLC (trace validation)")
 
+CHECKS["C08"] = dict(
+    level="exploration",
+    text="Reduced claim (DESIGN.md section 6). RoundTrip.tla models the NewTransform closure as a word of stage symbols (unit, inverse, "
+         "prime meridian, datum shift or the two-leg route through WGS84, forward, unit) with formal inverses, and TLC checks that "
+         "A -> B followed by B -> A reduces to the empty word for every pair of configurations of the matrix (8 projections x "
+         "sphere/ellipsoid x datum class x unit x prime meridian x hemisphere). Every configuration is instantiated with seeded "
+         "parameters (zones 1-60, parallels, origins, every built-in ellipsoid / datum / prime-meridian name) and the real "
+         "transformers WGS84 -> P -> WGS84 -> P are applied to positions of the usable region; RoundTripTrace.tla requires no error, "
+         "|dlon|,|dlat| <= 1e-6 degree and |dx|,|dy| <= 1 cm as integer inequalities.",
+    design_ref="DESIGN.md sections 5 (C08) and 6",
+    note="Trusted: TLC and the harness's deviations (two runs of the real code, no external numeric oracle: agreement with reference "
+         "formulas is C09, not claimed). Datum-shifted systems are exercised in the region their datum is defined for, because a 2-D "
+         "transformation cannot carry the ellipsoidal height through the round trip.",
+    technique="TLA+ pipeline-word model checked by TLC over the configuration matrix; TLC-enumerated configurations instantiated and run "
+              "on the real code; recorded deviations validated by TLC as integer inequalities")
+
 NOT_YET = "check not built yet in this round of work; will be claimed when its specification, replay and trace validation exist"
 NA = {
     "C09": "oracle is proj4js 2.3.12 and closed-form geodesy (real-valued transcendental functions, a JavaScript program that "
